@@ -5,6 +5,13 @@ PROP = "C02"
 THEOREMS = [tuple(x) for x in json.load(open(os.path.join(VERIF, "lib", "pins", PROP + ".json")))]
 
 
+def gen(rng, **kw):
+    # every fifth history regenerates its manifest (directly or through an included file)
+    if rng.random() < 0.2:
+        return gen_history(rng, with_regen=rng.choice([True, "include"]), **kw)
+    return gen_history(rng, **kw)
+
+
 def main(tier, seed, replay=None):
-    return world_check(PROP, THEOREMS, tier, seed, [monitor_null_build], clean_oracle=True, replay=replay,
+    return world_check(PROP, THEOREMS, tier, seed, [monitor_null_build], clean_oracle=True, replay=replay, scen_gen=gen,
                        note="phony aliases used as dirtying inputs (finding F8) are excluded by the property and not generated")
